@@ -27,10 +27,30 @@ import (
 )
 
 const (
-	repoDir  = "/repo"
 	verifDir = "/verif"
 	modPath  = "github.com/go-python/gpython"
 )
+
+// repoDir is /repo. Development only (seed matrix on a scratch copy while /repo
+// is in use): VERIF_REPO=<copy> reads the sources from there, and then the
+// output and evidence directories move to VERIF_OUT (default <copy>/.verif_out)
+// so that nothing under /verif/evidence comes from a copy.
+var (
+	repoDir     = "/repo"
+	outBase     = filepath.Join(verifDir, "out")
+	evidenceDir = filepath.Join(verifDir, "evidence")
+)
+
+func init() {
+	if r := os.Getenv("VERIF_REPO"); r != "" && r != "/repo" {
+		repoDir = r
+		outBase = os.Getenv("VERIF_OUT")
+		if outBase == "" {
+			outBase = filepath.Join(r, ".verif_out")
+		}
+		evidenceDir = filepath.Join(outBase, "evidence")
+	}
+}
 
 // Harness describes one harness function found under /verif/harness.
 type Harness struct {
@@ -183,7 +203,7 @@ func genRewrites(ld *loaded, pkgDir string) error {
 	if err := json.Unmarshal(b, &specs); err != nil {
 		return fmt.Errorf("rewrites.json of %s: %v", pkgDir, err)
 	}
-	dir := filepath.Join(verifDir, "out", "gen", pkgDir)
+	dir := filepath.Join(outBase, "gen", pkgDir)
 	os.MkdirAll(dir, 0o755)
 	for _, sp := range specs {
 		real := filepath.Join(repoDir, pkgDirToPath(pkgDir), sp.File)
@@ -223,7 +243,7 @@ func genIntrinsics(pkgDir string) (string, error) {
 		return "", err
 	}
 	pkgName := filepath.Base(pkgDirToPath(pkgDir))
-	dir := filepath.Join(verifDir, "out", "gen", pkgDir)
+	dir := filepath.Join(outBase, "gen", pkgDir)
 	os.MkdirAll(dir, 0o755)
 	p := filepath.Join(dir, "intrinsics.go")
 	src := strings.Replace(string(tmpl), "package PKG", "package "+pkgName, 1)
@@ -651,7 +671,7 @@ func cmdCheck(args []string) int {
 		}
 	}
 	// replay
-	outDir := filepath.Join(verifDir, "out", prop)
+	outDir := filepath.Join(outBase, prop)
 	os.MkdirAll(outDir, 0o755)
 	confirmed, mismatched := replayAll(ld, outDir, allViol)
 	kconf, _ := replayAll(ld, filepath.Join(outDir, "known"), knownSeen)
@@ -882,7 +902,7 @@ func cmdReplay(args []string) int {
 		fmt.Println("load error:", err)
 		return 2
 	}
-	outDir := filepath.Join(verifDir, "out", "replay")
+	outDir := filepath.Join(outBase, "replay")
 	os.MkdirAll(outDir, 0o755)
 	outcomes, note := runNative(ld, cases[0].PkgDir, args[0], outDir)
 	exit := 0
